@@ -128,7 +128,7 @@ func runGoRoundTrip(c *Case, tr *Trace) {
 			return
 		}
 		tr.Out = bytesToInts(sk.all)
-		if err := api.parse(append([]byte(nil), sk.all...), un); err != nil {
+		if err := api.parse(exact(sk.all), un); err != nil {
 			fail("parse", err)
 			return
 		}
@@ -482,7 +482,7 @@ func runAlias(c *Case, tr *Trace) {
 			return err
 		}
 		for _, ch := range chunksOf(data, cuts) {
-			buf := append([]byte(nil), ch...)
+			buf := exact(ch)
 			_, err := p.Write(buf)
 			for i := range buf {
 				buf[i] = 0xAA // the caller reuses its buffer
@@ -674,7 +674,7 @@ func runConc(c *Case, tr *Trace) {
 			}
 		}
 		rec := &RefRecorder{}
-		if err := api.parse(append([]byte(nil), sk.all...), rec); err != nil {
+		if err := api.parse(exact(sk.all), rec); err != nil {
 			return string(sk.all), "parse: " + err.Error()
 		}
 		eb, _ := json.Marshal(rec.Events)
@@ -865,7 +865,7 @@ func runGoReuse(c *Case, tr *Trace) {
 				if err := gotype.Fold(val, api.newVisitor(sk, Opts{IgnoreInvalidFloat: true}), userFolders); err != nil {
 					return describe(q.Elem()), err
 				}
-				err := api.parse(append([]byte(nil), sk.all...), u)
+				err := api.parse(exact(sk.all), u)
 				return describe(q.Elem()), err
 			}
 			err := gotype.Fold(val, u, userFolders)
